@@ -3,6 +3,7 @@ package main
 import (
 	"fmt"
 	"go/token"
+	"go/types"
 	"sort"
 	"strings"
 
@@ -39,6 +40,8 @@ func init() {
 			{"C01.validate-marks-invalid", "every seed failure reported by Plan.Validate marks that seed invalid (re-planning terminates)", 2, c01MarksInvalid},
 			{"C01.derived-state", "FileSeed.pos is rebuilt from scratch whenever FileSeed.index is replaced", 2, c01DerivedState},
 			{"C01.workers-started", "every loop that starts pool workers starts one per unit of the worker count (none is skipped for n == 1)", 6, func(c *Ctx) { c.workersStarted() }},
+			{"C01.feeder-watches-group", "the select that feeds pool workers watches the errgroup context, so a failed worker stops the feeder", 5, func(c *Ctx) { c.feederWatchesGroup() }},
+			{"C01.validate-file-keys", "Plan.Validate stores and looks up the open seed files under the same key", 1, c01ValidateFileKeys},
 			{"C01.errors-not-dropped", "no error of the operations this property depends on is dropped", 1, func(c *Ctx) { c.errorsNotDropped("C01") }},
 		},
 	})
@@ -1093,4 +1096,60 @@ func c01DerivedState(c *Ctx) {
 	if n == 0 {
 		c.bad("FileSeed:pos-reset", token.NoPos, "no assignment of FileSeed.index found")
 	}
+}
+
+// c01ValidateFileKeys: Plan.Validate opens every seed file once and keeps the handles in a map;
+// the feeder then hands each candidate the handle looked up under its file name.  Store key and
+// lookup key must be the same expression of the segment (both FileName()): a key that is
+// normalised on one side only makes the lookup miss for some spellings of the path, and a nil
+// *os.File is handed to Validate (every read fails: a valid seed is reported invalid, or with
+// "regenerate" the plan is rebuilt for ever).
+func c01ValidateFileKeys(c *Ctx) {
+	fn := c.mustFn("Plan.Validate")
+	if fn == nil {
+		return
+	}
+	isFileMap := func(v ssa.Value) bool {
+		mt, ok := v.Type().Underlying().(*types.Map)
+		return ok && strings.HasSuffix(mt.Elem().String(), "os.File")
+	}
+	keyShape := func(v ssa.Value) string {
+		os := origins(v)
+		sort.Strings(os)
+		return strings.Join(os, ",")
+	}
+	stores, lookups := map[string]token.Pos{}, map[string]token.Pos{}
+	for _, g := range append(fnsDeep(fn), closures(fn)...) {
+		instrs(g, func(_ *ssa.BasicBlock, _ int, ins ssa.Instruction) {
+			switch x := ins.(type) {
+			case *ssa.MapUpdate:
+				if isFileMap(x.Map) {
+					stores[keyShape(x.Key)] = x.Pos()
+				}
+			case *ssa.Lookup:
+				if isFileMap(x.X) && !x.CommaOk {
+					lookups[keyShape(x.Index)] = x.Pos()
+				}
+			}
+		})
+	}
+	if len(stores) == 0 || len(lookups) == 0 {
+		c.info("Plan.Validate:file-keys", fn.Pos(), "no map of open seed files (handles are passed differently)")
+		c.ok("Plan.Validate:file-keys", fn.Pos(), "no keyed hand-over of file handles")
+		return
+	}
+	okK := true
+	var detail []string
+	for k, pos := range lookups {
+		if _, same := stores[k]; !same {
+			okK = false
+			detail = append(detail, fmt.Sprintf("looked up at %s under [%s]", c.pos(pos), k))
+		}
+	}
+	for k, pos := range stores {
+		detail = append(detail, fmt.Sprintf("stored at %s under [%s]", c.pos(pos), k))
+	}
+	sort.Strings(detail)
+	c.verdict(okK, "Plan.Validate:file-keys", fn.Pos(), "the seed file handles are stored and looked up under the same key expression",
+		"the map of open seed files is filled under one key and read under another ("+strings.Join(detail, "; ")+"): for some seed paths the lookup yields a nil file, a valid seed fails validation")
 }
